@@ -147,12 +147,7 @@ func chunks(p []byte, n int) [][]byte {
 //  3. Append the domain.
 //     ingesrkokreujy6zumkse43vobsxey3bnruwm4tbm5uwy2ltoruwgzlyobuwc3d.jmrxwg2lpovzq.t.example.com
 func (c *DNSPacketConn) send(transport net.Conn, p []byte) error {
-	encoded := make([]byte, base32Encoding.EncodedLen(len(p)))
-	base32Encoding.Encode(encoded, p)
-	encoded = bytes.ToLower(encoded)
-	labels := chunks(encoded, 63)
-	labels = append(labels, c.domain...)
-	name, err := dns.NewName(labels)
+	name, err := c.encodeName(p)
 	if err != nil {
 		return err
 	}
@@ -191,6 +186,26 @@ func (c *DNSPacketConn) send(transport net.Conn, p []byte) error {
 
 	_, err = transport.Write(buf)
 	return err
+}
+
+// encodeName packs p into a name under c.domain, or fails if it does not fit.
+func (c *DNSPacketConn) encodeName(p []byte) (dns.Name, error) {
+	encoded := make([]byte, base32Encoding.EncodedLen(len(p)))
+	base32Encoding.Encode(encoded, p)
+	encoded = bytes.ToLower(encoded)
+	labels := chunks(encoded, 63)
+	labels = append(labels, c.domain...)
+	return dns.NewName(labels)
+}
+
+// WriteTo queues p for sending. A packet that cannot be encoded into one DNS
+// name is refused here, where the caller can see the error, rather than being
+// dropped later in sendLoop.
+func (c *DNSPacketConn) WriteTo(p []byte, addr net.Addr) (int, error) {
+	if _, err := c.encodeName(p); err != nil {
+		return 0, err
+	}
+	return c.QueuePacketConn.WriteTo(p, addr)
 }
 
 // sendLoop takes packets that have been written using c.WriteTo, and sends them
